@@ -68,6 +68,7 @@ def h_sample(I, fi):
         ok = len(trace) == 1 and trace[0][0] == "gamma"
         P.check("gibbs.K=0.prior-draw", ok and P.z(I.to_num(trace[0][1][0])) == P.z(a) and P.z(I.to_num(trace[0][2].get("scale"))) == P.z(1 / b),
                 "with no clone the value is drawn from the Gamma(a, rate b) prior", kind="post")
+        P.check("gibbs.K=0.result-clamped", P.z(I.to_num(out)) >= P.z(Num.const(1e-10)), "also the prior draw is clamped at 1e-10 (a draw that underflows to 0 would make log alpha -inf)", kind="post")
         return
     ok = len(trace) == 3 and [t[0] for t in trace] == ["beta", "bernoulli", "gamma"]
     P.check("gibbs.draw-sequence", ok, "auxiliary beta draw, then the mixture component, then one gamma draw", kind="post")
@@ -92,8 +93,11 @@ def h_sample(I, fi):
     P.assume(z3.And(P.z(G0) > 0, P.z(Ps) > 0), "Gamma(s) > 0, rate^s > 0")
     w1 = s_ * G0 / (rate * Ps)
     w2 = n * G0 / Ps
-    P.check("gibbs.mixture-weight", P.z(pi) * (P.z(w1) + P.z(w2)) == P.z(w1),
-            "P(shape = a+K) is the weight of the x^(a+K-1) component of x^(a+K-2) (x+n) exp(-x rate)", kind="post")
+    # decided exactly as a rational-function identity by the algebra layer (no NRA search: verdict cannot flip under load);
+    # the non-vanishing of every denominator is the separate nonzero-divisor obligations above
+    ident = alg.is_identically_zero(pi * (w1 + w2) - w1)
+    P.check("gibbs.mixture-weight", bool(ident),
+            "P(shape = a+K) is the weight of the x^(a+K-1) component of x^(a+K-2) (x+n) exp(-x rate) [exact polynomial identity]", kind="post")
 
 
 def h_sample_result(I, fi):
